@@ -137,6 +137,7 @@ func (s *sut) call(req *fasthttp.Request, addr net.Addr, tls bool) (o obs, panic
 const target = "http://app.example.com:8080/"
 
 func main() {
+	core.SuperviseSelf("C10") // a runtime fatal error inside the code under test is a finding, not a harness error
 	only := flag.String("family", "", "debug: run only these families (comma separated subset of P,T,D,V)")
 	r := core.Start("C10")
 	log.SetOutput(io.Discard) // fiber warns about every unparsable Proxies entry
